@@ -1,5 +1,60 @@
 """C18 - generated Python contains program text only as constants (DESIGN.md C18)."""
-from vfw.core import Ob, Plan, fn_src, known_exclusions
+import json
+import subprocess
+
+from vfw.core import Ob, Plan, fn_src, known_exclusions, PY, REPO, VERIF
+
+
+def corpus_validation(ctx):
+    """Supplementary, concrete: every raw string-literal body of length <= 4 over an adversarial alphabet, in two contexts, through the
+    real transpile + compile + AST comparison. It validates the lexical model (match_segments/pydecode) against CPython and catches
+    implementations the symbolic half cannot follow (e.g. regex-based escaping)."""
+    prog = r'''
+import sys, json, itertools, warnings
+warnings.filterwarnings("ignore")
+sys.path[:0] = [%r, %r]
+from hlib.c18lib import *
+alpha = [chr(92), chr(96), chr(34), chr(39), chr(10), "a", ")", ";", "#", "("]
+n = 0; bad = []; disagree = []
+for pre, post in (("", " +"), ("1[", "|2]+")):
+    ref = {dc: transpile_det(pre + chr(96) + "QZQ" + chr(96) + post, dc) for dc in (True, False)}
+    for L in range(0, 5):
+        for t in itertools.product(alpha, repeat=L):
+            body = "".join(t)
+            if chr(96) in body.replace(chr(92) + chr(96), ""):
+                continue  # an unescaped back-quote ends the literal: the rest is program text, not payload
+            if len(body) - len(body.rstrip(chr(92))) & 1:
+                continue  # a trailing lone backslash escapes the closing back-quote
+            for dc in (False, True):
+                n += 1
+                try:
+                    out = transpile_det(pre + chr(96) + body + chr(96) + post, dc)
+                except Exception:
+                    continue
+                try:
+                    same = ast_shape(out) == ast_shape(ref[dc])
+                except (SyntaxError, ValueError):
+                    continue
+                lex = match_segments(out, ref[dc].split("QZQ"), "strbody")
+                if not same:
+                    bad.append([pre, body, post, dc])
+                elif lex is not True:
+                    disagree.append([body, dc, str(lex)])
+print(json.dumps({"n": n, "bad": bad[:5], "nbad": len(bad), "disagree": disagree[:3]}))
+''' % (REPO, VERIF)
+    p = subprocess.run([PY, "-c", prog], stdin=subprocess.DEVNULL, stdout=subprocess.PIPE, stderr=subprocess.PIPE, timeout=1200)
+    try:
+        out = json.loads(p.stdout.decode().strip().splitlines()[-1])
+    except Exception:
+        return {"errors": ["C18 corpus validation crashed: " + p.stderr.decode()[-500:]]}
+    res = {"validated": out["n"], "coverage": {"corpus_programs_compiled": out["n"], "lexical_model_stricter_than_ast_on": out["disagree"]}}
+    if out["bad"]:
+        pre, body, post, dc = out["bad"][0]
+        replay = ("import sys, warnings; warnings.filterwarnings('ignore'); sys.path[:0]=[%r,%r]\nfrom hlib.c18lib import *\n"
+                  "out = transpile_det(%r + chr(96) + %r + chr(96) + %r, %r)\nref = transpile_det(%r + chr(96) + 'QZQ' + chr(96) + %r, %r)\nprint(out)\n"
+                  "sys.exit(0 if ast_shape(out) == ast_shape(ref) else 1)\n" % (REPO, VERIF, pre, body, post, dc, pre, post, dc))
+        res["violations"] = [("C18 corpus: string body %r changes the shape of the generated code (%d such bodies)" % (body, out["nbad"]), replay)]
+    return res
 
 PRE = '''from hlib.c18lib import *
 CP = ENC.codepage
@@ -42,6 +97,13 @@ def build(tier, seed, known):
         add(nm, "string", "c: str", ["len(c) == 1"],
             ["try:", "    out = transpile_det(%r + chr(96) + 'a' + chr(92) + c + 'b' + chr(96) + %r, False)" % (pre, post), "except Exception:", "    return note('transpile raised')",
              "return code_ok(out, REF_%s.replace('aQZQb', 'QZQ'), 'QZQ', 'strbody')" % nm], 200, "escape pair backslash+c inside a string in context %s" % cname, "c any Unicode character")
+        # an escape pair followed by arbitrary text (e.g. an escaped backslash followed by a bare quote)
+        for L in (1, 2) if tier == "quick" else (1, 2, 3):
+            nm = "stresc_then_%s_len%d" % (cname, L)
+            add(nm, "string", "c: str, p: str", ["len(c) == 1", "len(p) == %d" % L, "chr(96) not in p", "chr(92) not in p"],
+                ["try:", "    out = transpile_det(%r + chr(96) + chr(92) + c + p + chr(96) + %r, False)" % (pre, post), "except Exception:", "    return note('transpile raised')",
+                 "return code_ok(out, REF_stresc_%s.replace('aQZQb', 'QZQ'), 'QZQ', 'strbody')" % cname], 300,
+                "escape pair backslash+c followed by a payload inside a string in context %s" % cname, "c any Unicode character; p any Unicode without back-quote/backslash, len == %d" % L)
         nm = "two_%s" % cname
         src += "REF_%s = transpile_det(%r + '‛Qz' + %r, False)\n" % (nm, pre, post)
         add(nm, "string", "p: str", ["len(p) == 2"],
@@ -105,6 +167,13 @@ def build(tier, seed, known):
                  "mine = [c for c in calls if c[2] is p]",
                  "return len(mine) == len(ref_calls) and all(a[0] == b[0] and a[1] == b[1] for a, b in zip(mine, ref_calls))"]
         add(nm, "ident", "p: str", pres, body, 200, what + ": with re.sub spied the output is the fixed text; the name is passed to the sanitiser and nowhere else", "name any Unicode len 1..%d" % (n + 1))
+    # numeric parameter slot: any text that passes isnumeric() may only surface as a number constant (or transpile raises)
+    src += "REF_fn_param_num = transpile_struct_det(STRUCT.FunctionDef('f', ['7'], BODY))\n"
+    src += "NUMERALS = '0123456789' + '²½' + chr(0x217d) + chr(0x217f) + chr(0x0663) + chr(0x4e00) + chr(0x2460) + chr(0x2167) + chr(0xff11)\n"
+    add("fn_param_numeric", "ident", "p: str", ["1 <= len(p) <= 2", "all(ch in NUMERALS for ch in p)"],
+        ["try:", "    out = transpile_struct_det(STRUCT.FunctionDef('f', [p], BODY))", "except ValueError:", "    return note('transpile raised: nothing returned')",
+         "return ast_confirm(out, REF_fn_param_num) or explain('numeric parameter text surfaced outside a number constant')"], 600,
+        "FunctionDef lowering with a numeric-looking parameter (digits and Unicode numerals that pass isnumeric): AST == AST for parameter 7 with constants blanked, or transpile raises", "parameter over ASCII digits and 9 Unicode numerals (superscript, fraction, Roman, Arabic-Indic, CJK, circled, full-width), len 1..2 (realisation-exhausted)")
     src += "SAN_PATTERNS = sorted({c[0] for cs in (%s) for c in cs if c[2] == 'QZQ'})\n" % ", ".join("CALLS_" + k for k in STRUCTS)
     add("sanitiser_patterns", "ident", "s: str, which: int", ["len(s) <= %d" % (n + 1), "0 <= which < len(SAN_PATTERNS)"],
         ["import re as _re", "r = _re.sub(SAN_PATTERNS[which], '', s)", "return all(ch in IDCHARS for ch in r)"], 600,
@@ -120,6 +189,7 @@ def build(tier, seed, known):
         ["out = transpile_det(chr(96) + p + chr(96), False)", "return code_ok(out, REF_str_top_len1_raw, 'QZQ', 'strbody') and p != chr(34)"], 120, "reachability twin", "", "refuted")
     add("twin_ident", "ident", "p: str", ["len(p) <= 2"], ["out, calls = transpile_struct_spied(STRUCT.FunctionCall(p))", "return out == REF_fn_call_name and len(p) < 2"], 120, "reachability twin", "", "refuted")
     plan.modules["m"] = src
+    plan.post_steps.append(corpus_validation)
     plan.functions_encoded = ["vyxal/transpile.py: transpile transpile_token (STRING CHARACTER COMPRESSED_* CODEPAGE_NUMBER VARIABLE_*) transpile_structure (ForLoop FunctionCall FunctionDef Lambda)", "vyxal/lexer.py: tokenise", "vyxal/parse.py: parse variable_name process_parameters",
                               "vyxal/helpers.py: uncompress uncompress_dict uncompress_str uncompress_num indent_str"]
     plan.rule = ("per syntactic position that accepts program-chosen text, in %d surrounding contexts for literal positions: the solver quantifies over the payload; oracle (non-interference): the generated code equals the "
